@@ -127,7 +127,16 @@ fn apply(g: &mut Gen, mut t: Term, kind: &str) -> Term {
             let mut valid = true;
             let strict = g.rng.chance(1, 4);
             for &dim in dims.iter().take(k) {
-                let (start, length, class) = random_range(g, shape[dim].1);
+                let (mut start, mut length, mut class) = random_range(g, shape[dim].1);
+                // a mask must leave something visible: prefer such masks two times in three
+                if kind == "mask" && shape[dim].1 >= 2 && clip(start, length, shape[dim].1) >= shape[dim].1 && g.rng.chance(2, 3) {
+                    start = g.rng.below(shape[dim].1);
+                    length = g.rng.range(1, shape[dim].1 - 1);
+                    if clip(start, length, shape[dim].1) >= shape[dim].1 {
+                        start = 1;
+                    }
+                    class = "partial";
+                }
                 g.count(&format!("{}.param.{}", kind, class));
                 parts.push(format!("{}:{}:{}", shape[dim].0, start, length));
                 let clipped = clip(start, length, shape[dim].1);
@@ -150,8 +159,9 @@ fn apply(g: &mut Gen, mut t: Term, kind: &str) -> Term {
                 t.shape = new_shape;
                 t.lines.push((line, Some(lens(&t.shape))));
             } else {
+                // the constructor is expected to refuse: the top of the stack stays what it was
                 g.count(&format!("{}.expected_reject", kind));
-                t.lines.push((line, None));
+                t.lines.push((line, Some(lens(&t.shape))));
             }
         }
         "index" => {
@@ -694,7 +704,7 @@ pub fn gen(g: &mut Gen, static_keys: &[&str], static_ops: &dyn Fn(&str) -> Vec<S
     // 3. every parameter at depth 1
     exhaustive(g);
     // 4. random compositions
-    let (max_depth, per_depth) = if g.thorough { (5, 700) } else { (3, 260) };
+    let (max_depth, per_depth) = if g.thorough { (5, 9000) } else { (3, 1200) };
     for depth in 0..=max_depth {
         let n = if depth == 0 { per_depth / 4 } else { per_depth };
         for _ in 0..n {
